@@ -14,16 +14,22 @@
 //!   W            clone a handle and spawn an observer awaiting `stopped()`
 //!   Z            wait until the observer has seen `stopped()` resolve
 //!   p            pause 25 ms
+//!   B<n>         (first) ServerBuilder::set_message_buffer_capacity(n): the bounded outgoing queue of a WS connection
+//!   P<n>         (first) every reply is padded to n KiB
+//!   cW           like cw, but the client socket has a 4 KiB receive buffer (with q<c> the server's writer blocks)
+//!   q<c> / g<c>  the client's reader task of connection c stops / resumes reading
+//!   A            open the gates of all calls sent so far in one step
 //! At the end every gate is opened, `stopped()` is awaited when a stop signal was given and an observer
 //! exists, the connections are given time to close, and the facts are printed:
 //!   stops=<ok|already|nohandle,..>;stopped=<yes|no|nowatch>;conns=<c|o|x ..>;calls=<SFR[L] ..>;to=<timed-out ops>
 //!   S: a = handler started before the stop signal, b = after it but before `stopped` resolved, c = after
 //!      `stopped` resolved, - = never;  F: < handler returned before `stopped` resolved, > after, - never;
-//!   R: reply read by the client;  L: the call was sent after `stopped` had resolved.
+//!   R: reply read by the client (r: read, but more than 100 ms after `stopped` was observed: it cannot have been
+//!      handed to the transport before);  L: the call was sent after `stopped` had resolved.
 //!   conns: c = closed by the server, o = still open, x = dropped by the client.
 //! Every await is under a timeout; a wait that expires is listed in `to=` and the history goes on.
 use std::collections::HashMap;
-use std::sync::atomic::{AtomicU64, Ordering};
+use std::sync::atomic::{AtomicBool, AtomicU64, Ordering};
 use std::sync::{Arc, Mutex};
 use std::time::Duration;
 
@@ -50,6 +56,7 @@ enum Ev {
 	Closed(usize),
 	Sig,
 	Stopped,
+	StoppedGrace,
 }
 
 struct Case {
@@ -57,11 +64,13 @@ struct Case {
 	log: Mutex<Vec<(u64, Ev)>>,
 	notify: Notify,
 	gates: Vec<Semaphore>,
+	pad: usize,
 }
 
 impl Case {
-	fn new() -> Self {
+	fn new(pad: usize) -> Self {
 		Case {
+			pad,
 			seq: AtomicU64::new(0),
 			log: Mutex::new(Vec::new()),
 			notify: Notify::new(),
@@ -95,8 +104,8 @@ impl Case {
 }
 
 enum ClientConn {
-	Ws { tx: Box<dyn WsSend>, reader: tokio::task::JoinHandle<()> },
-	Http { wr: tokio::net::tcp::OwnedWriteHalf, reader: tokio::task::JoinHandle<()> },
+	Ws { tx: Box<dyn WsSend>, reader: tokio::task::JoinHandle<()>, paused: Arc<AtomicBool> },
+	Http { wr: tokio::net::tcp::OwnedWriteHalf, reader: tokio::task::JoinHandle<()>, paused: Arc<AtomicBool> },
 	Failed,
 	Dropped,
 }
@@ -119,17 +128,34 @@ fn reply_id(text: &str) -> Option<u64> {
 	v.get("id")?.as_u64()
 }
 
-async fn open_ws(case: &Arc<Case>, addr: std::net::SocketAddr, c: usize, d: Duration) -> ClientConn {
+async fn open_ws(case: &Arc<Case>, addr: std::net::SocketAddr, c: usize, d: Duration, small: bool) -> ClientConn {
 	let url = Url::parse(&format!("ws://{}", addr)).unwrap();
+	let sock = match tokio::net::TcpSocket::new_v4() {
+		Ok(s) => s,
+		Err(_) => return ClientConn::Failed,
+	};
+	if small {
+		let _ = sock.set_recv_buffer_size(4096);
+	}
+	let stream = match timeout(d, sock.connect(addr)).await {
+		Ok(Ok(s)) => s,
+		_ => return ClientConn::Failed,
+	};
+	let _ = stream.set_nodelay(true);
 	// the handshake future is dropped on timeout: nothing of it is reused afterwards
-	let (tx, mut rx) = match timeout(d, WsTransportClientBuilder::default().build(url)).await {
+	let (tx, mut rx) = match timeout(d, WsTransportClientBuilder::default().build_with_stream(url, stream)).await {
 		Ok(Ok(p)) => p,
 		_ => return ClientConn::Failed,
 	};
 	let case = case.clone();
+	let paused = Arc::new(AtomicBool::new(false));
+	let pz = paused.clone();
 	// dedicated reader: `receive()` is not cancel-safe, it is only awaited here (the task is aborted only to drop it)
 	let reader = tokio::spawn(async move {
 		loop {
+			while pz.load(Ordering::SeqCst) {
+				sleep(Duration::from_millis(2)).await;
+			}
 			match rx.receive().await {
 				Ok(ReceivedMessage::Text(s)) => {
 					if let Some(id) = reply_id(&s) {
@@ -144,7 +170,7 @@ async fn open_ws(case: &Arc<Case>, addr: std::net::SocketAddr, c: usize, d: Dura
 			}
 		}
 	});
-	ClientConn::Ws { tx: Box::new(tx), reader }
+	ClientConn::Ws { tx: Box::new(tx), reader, paused }
 }
 
 async fn open_http(case: &Arc<Case>, addr: std::net::SocketAddr, c: usize, d: Duration) -> ClientConn {
@@ -155,10 +181,15 @@ async fn open_http(case: &Arc<Case>, addr: std::net::SocketAddr, c: usize, d: Du
 	let _ = sock.set_nodelay(true);
 	let (mut rd, wr) = sock.into_split();
 	let case = case.clone();
+	let paused = Arc::new(AtomicBool::new(false));
+	let pz = paused.clone();
 	let reader = tokio::spawn(async move {
 		let mut buf: Vec<u8> = Vec::new();
 		let mut tmp = [0u8; 4096];
 		'outer: loop {
+			while pz.load(Ordering::SeqCst) {
+				sleep(Duration::from_millis(2)).await;
+			}
 			// one response: head, then Content-Length bytes
 			let head_end = loop {
 				if let Some(p) = buf.windows(4).position(|w| w == b"\r\n\r\n") {
@@ -188,7 +219,7 @@ async fn open_http(case: &Arc<Case>, addr: std::net::SocketAddr, c: usize, d: Du
 		}
 		case.push(Ev::Closed(c));
 	});
-	ClientConn::Http { wr, reader }
+	ClientConn::Http { wr, reader, paused }
 }
 
 fn module(case: Arc<Case>) -> RpcModule<Arc<Case>> {
@@ -202,7 +233,9 @@ fn module(case: Arc<Case>) -> RpcModule<Arc<Case>> {
 			}
 			ctx.push(Ev::Fin(k));
 		}
-		k
+		let mut out = format!("{k}:");
+		out.extend(std::iter::repeat('x').take(ctx.pad));
+		out
 	})
 	.unwrap();
 	m.register_subscription("sub", "n", "unsub", |_, pending: PendingSubscriptionSink, _, _| async move {
@@ -215,12 +248,25 @@ fn module(case: Arc<Case>) -> RpcModule<Arc<Case>> {
 }
 
 async fn run_case(line: &str) -> String {
-	let case = Arc::new(Case::new());
+	let mut cap: Option<u32> = None;
+	let mut pad = 0usize;
+	for op in line.split_whitespace() {
+		if let Some(v) = op.strip_prefix('B') {
+			cap = v.parse().ok();
+		} else if let Some(v) = op.strip_prefix('P') {
+			pad = v.parse::<usize>().unwrap_or(0) * 1024;
+		}
+	}
+	let case = Arc::new(Case::new(pad));
 	// one loop-back address per harness process: a port freed by a stopped server can then only be re-used by
 	// this process (whose earlier servers are gone), never by a server of a concurrently running history
 	let pid = std::process::id();
 	let bind = format!("127.{}.{}.1:0", 1 + (pid / 250) % 250, pid % 250);
-	let server = match Server::builder().build(bind.as_str()).await {
+	let builder = match cap {
+		Some(n) => jsonrpsee_server::ServerBuilder::with_config(jsonrpsee_server::ServerConfig::builder().set_message_buffer_capacity(n.max(1)).build()),
+		None => Server::builder(),
+	};
+	let server = match builder.build(bind.as_str()).await {
 		Ok(s) => s,
 		Err(_) => return "FATAL bind".into(),
 	};
@@ -242,10 +288,10 @@ async fn run_case(line: &str) -> String {
 		let (head, arg) = op.split_at(1);
 		let n: usize = arg.parse().unwrap_or(0);
 		match (head, op) {
-			(_, "cw") | (_, "ch") => {
+			(_, "cw") | (_, "cW") | (_, "ch") => {
 				let d = if stop_op_seen { LATE_CONNECT } else { WAIT };
 				let c = conns.len();
-				let cc = if op == "cw" { open_ws(&case, addr, c, d).await } else { open_http(&case, addr, c, d).await };
+				let cc = if op == "ch" { open_http(&case, addr, c, d).await } else { open_ws(&case, addr, c, d, op == "cW").await };
 				conns.push(cc);
 			}
 			("s", _) => {
@@ -290,12 +336,12 @@ async fn run_case(line: &str) -> String {
 			("d", _) => {
 				if let Some(cc) = conns.get_mut(n) {
 					match std::mem::replace(cc, ClientConn::Dropped) {
-						ClientConn::Ws { tx, reader } => {
+						ClientConn::Ws { tx, reader, .. } => {
 							reader.abort();
 							let _ = reader.await;
 							drop(tx);
 						}
-						ClientConn::Http { wr, reader } => {
+						ClientConn::Http { wr, reader, .. } => {
 							reader.abort();
 							let _ = reader.await;
 							drop(wr);
@@ -358,6 +404,10 @@ async fn run_case(line: &str) -> String {
 					tokio::spawn(async move {
 						h2.stopped().await;
 						cs.push(Ev::Stopped);
+						// everything the server handed to a transport before this point reaches the client's
+						// reader task well within the grace period; a reply read later was not handed over before
+						sleep(Duration::from_millis(100)).await;
+						cs.push(Ev::StoppedGrace);
 					});
 				}
 			}
@@ -367,11 +417,26 @@ async fn run_case(line: &str) -> String {
 				}
 			}
 			("p", _) => sleep(Duration::from_millis(25)).await,
+			("B", _) | ("P", _) => {}
+			("A", _) => {
+				for k in 0..sent.len().min(MAXCALLS) {
+					case.gates[k].add_permits(1);
+				}
+			}
+			("q", _) | ("g", _) => match conns.get(n) {
+				Some(ClientConn::Ws { paused, .. }) | Some(ClientConn::Http { paused, .. }) => paused.store(head == "q", Ordering::SeqCst),
+				_ => {}
+			},
 			_ => return format!("BADOP {op}"),
 		}
 	}
 
 	// settle
+	for cc in &conns {
+		if let ClientConn::Ws { paused, .. } | ClientConn::Http { paused, .. } = cc {
+			paused.store(false, Ordering::SeqCst);
+		}
+	}
 	for g in &case.gates {
 		g.add_permits(1);
 	}
@@ -379,6 +444,9 @@ async fn run_case(line: &str) -> String {
 	if sig {
 		if have_watch && !case.wait_for(Ev::Stopped, WAIT).await {
 			to.push("Zfinal".into());
+		}
+		if case.find(Ev::Stopped).is_some() {
+			let _ = case.wait_for(Ev::StoppedGrace, Duration::from_millis(1000)).await;
 		}
 		for (c, cc) in conns.iter().enumerate() {
 			if matches!(cc, ClientConn::Ws { .. } | ClientConn::Http { .. }) {
@@ -412,7 +480,12 @@ async fn run_case(line: &str) -> String {
 				Some(n) if n < stopped_at => '<',
 				Some(_) => '>',
 			};
-			let r = if pos(Ev::Reply(k)).is_some() { 'R' } else { '-' };
+			let grace_at = pos(Ev::StoppedGrace).unwrap_or(u64::MAX);
+			let r = match pos(Ev::Reply(k)) {
+				None => '-',
+				Some(n) if n < grace_at => 'R',
+				Some(_) => 'r',
+			};
 			format!("{s}{f}{r}{}", if sent[k as usize].1 { "L" } else { "" })
 		})
 		.collect();
